@@ -17,7 +17,7 @@ def dspec_def(ubi, gv, k):
     t = 0
     for r in range(3):
         h = hkl(ubi, gv, k, r)
-        d = h - smt.rne_u(h)
+        d = h - K.rne(h)
         t = t + d * d
     return t
 
@@ -26,7 +26,7 @@ dspec = K.opaque('drlv2', dspec_def)
 
 
 def ihkl(ubi, gv, k, r):
-    return smt.rne_u(hkl(ubi, gv, k, r))
+    return K.rne(hkl(ubi, gv, k, r))
 
 
 
@@ -55,11 +55,11 @@ class Mat:
 
 def inv3(M):
     d = det3(M)
-    return Mat([[smt.real(adj3(M, i, j)) / smt.real(d) for j in range(3)] for i in range(3)])
+    return Mat([[K.rdiv(adj3(M, i, j), d) for j in range(3)] for i in range(3)])
 
 
 def matmul3(A, B):
     return Mat([[sum(A[i][l] * B[l][j] for l in range(3)) for j in range(3)] for i in range(3)])
 
 
-K.BASE_NS.update(hkl=hkl, dspec=dspec, ihkl=ihkl, det3=det3, adj3=adj3, inv3=inv3, matmul3=matmul3, Mat=Mat)
+K.register_spec(hkl=hkl, dspec=dspec, ihkl=ihkl, det3=det3, adj3=adj3, inv3=inv3, matmul3=matmul3, Mat=Mat)
